@@ -512,6 +512,10 @@ class DISPENSO_CACHELINE_ALIGNED ThreadPool {
   // lock on the schedule path. Threads check own ring first in the steal order.
   ConcurrentObjectArena<Ring> rings_;
   std::atomic<size_t> numRings_{0};
+  // The largest numRings_ ever published.  Rings are never freed, and a producer that read
+  // numRings_ just before a shrinking resize may still push into a ring beyond the new count after
+  // the resize has drained it: waiters scan up to here so that such a task is found.
+  std::atomic<size_t> ringsHighWater_{0};
 
   // Steal rings for non-locality work distribution.
   // Populated by schedule() (both proactive wake and no-sleeper paths).
@@ -744,7 +748,8 @@ inline bool ThreadPool::tryExecuteNextFromRings(size_t& startRing) {
   // could observe the grown count without the rings' construction being visible,
   // letting us index a not-yet-constructed ring (UB; SIGILL on weak-memory targets
   // like arm64).
-  size_t n = numRings_.load(std::memory_order_acquire);
+  // (ringsHighWater_, not numRings_: see its declaration.  It is published the same way.)
+  size_t n = ringsHighWater_.load(std::memory_order_acquire);
   for (size_t i = 0; i < n; ++i) {
     size_t idx = (startRing + i) % n;
     if (rings_[idx].try_pop(task)) {
